@@ -140,6 +140,7 @@ def run(ctx: Ctx):
              "needs by literals (or by the first isotherm / a documented units parameter); exceptions listed with reasons")
     nsites = 0
     seen_exempt = set()
+    psd_sites = []
     for mname, m in sorted(model.modules.items()):
         if not mname.startswith(SCOPE_PREFIXES):
             continue
@@ -149,7 +150,10 @@ def run(ctx: Ctx):
             for node, kind, kw in scan_function(fi):
                 nsites += 1
                 site = f"{fi.qualname.split('.')[-1]}|{kind}@{ast.unparse(node.func)}"
-                if fi.qualname in EXEMPT and fi.qualname != "pygaps.characterisation.psd_kernel.psd_dft":
+                if fi.qualname == "pygaps.characterisation.psd_kernel.psd_dft":
+                    psd_sites.append(kind)      # units come from the kernel_units parameter: decided below by interpretation
+                    continue
+                if fi.qualname in EXEMPT:
                     seen_exempt.add(fi.qualname)
                     ctx.ob(True, nontrivial_key=("exempt", fi.qualname, kind))
                     continue
@@ -220,23 +224,44 @@ def run(ctx: Ctx):
     from ..absint import Obj, Term
     from .C18 import mk as mk_terms
     fi = model.func("pygaps.characterisation.psd_kernel.psd_dft")
-    I = mk_terms(model)
-    cap = {}
+    ctx.rule("R-pin (kernel PSD): psd_dft interpreted with a recording reader: without kernel_units the isotherm is read in the documented "
+             "kernel representation, a given kernel_units entry reaches the reader unchanged, the others keep their defaults")
+    ctx.floor("isotherm reads in psd_dft", len(psd_sites), 1)
+    want = {"loading_basis": "molar", "loading_unit": "mmol", "material_basis": "mass", "material_unit": "g",
+            "pressure_mode": "relative", "pressure_unit": None}
+    given_full = {k: f"<{k}>" for k in want}
+    cases = [("omitted", None), ("empty", {}), ("complete", given_full)] + [(f"only-{k}", {k: given_full[k]}) for k in want]
+    for cname, ku in cases:
+        I = mk_terms(model)
+        cap = {}
 
-    def reader(I, fi_, env, n):
-        cap["loading_units"], cap["pressure_units"] = env.get("loading_units"), env.get("pressure_units")
-        return (Term("P_in"), Term("L_in"))
-    I.overrides["pygaps.utilities.pygaps_utilities.get_iso_loading_and_pressure_ordered"] = reader
-    I.overrides["pygaps.characterisation.psd_kernel.psd_dft_kernel_fit"] = lambda I, fi_, env, n: (Term("W"), Term("D"), Term("C"), Term("F"))
-    outs = I.explore(lambda I: I.call_func(fi, [Obj(kind="IsoStub", label="iso", attrs={})], {}, None))
-    lu, pu = cap.get("loading_units"), cap.get("pressure_units")
-    want_l = {"loading_basis": "molar", "loading_unit": "mmol", "material_basis": "mass", "material_unit": "g"}
-    okk = isinstance(lu, dict) and isinstance(pu, dict) and all(lu.get(k) == v for k, v in want_l.items()) \
-        and pu.get("pressure_mode") == "relative" and pu.get("pressure_unit") is None
-    ctx.ob(okk, Finding("C15.R-pin", fi.where, "psd_dft|kernel-unit-defaults",
-                        f"psd_dft() without kernel_units reads the isotherm with {lu} / {pu}; the documented kernel representation is "
-                        f"{want_l} / relative pressure"),
-           nontrivial_key=("kernel-defaults",))
+        def reader(I, fi_, env, n):
+            cap.setdefault("reads", []).append((env.get("loading_units"), env.get("pressure_units")))
+            return (Term("P_in"), Term("L_in"))
+        I.overrides["pygaps.utilities.pygaps_utilities.get_iso_loading_and_pressure_ordered"] = reader
+        I.overrides["pygaps.characterisation.psd_kernel.psd_dft_kernel_fit"] = lambda I, fi_, env, n: (Term("W"), Term("D"), Term("C"), Term("F"))
+
+        def thunk(I):
+            cap.clear()
+            I.call_func(fi, [Obj(kind="IsoStub", label="iso", attrs={})], {} if ku is None else {"kernel_units": dict(ku)}, None)
+            return dict(cap)
+        expect = {k: (ku or {}).get(k, v) for k, v in want.items()}
+        nret = 0
+        for oc in I.explore(thunk):
+            if oc.kind != "ok":
+                continue
+            nret += 1
+            reads = oc.value.get("reads") or []
+            ctx.ob(len(reads) >= 1, Finding("C15.R-pin", fi.where, "psd_dft|no-read", "psd_dft does not read the isotherm through the ordered reader"))
+            for lu, pu in reads:
+                got = {**(lu if isinstance(lu, dict) else {}), **(pu if isinstance(pu, dict) else {})}
+                okk = isinstance(lu, dict) and isinstance(pu, dict) and all(k in got and got[k] == v for k, v in expect.items()) \
+                    and set(lu) == {"loading_basis", "loading_unit", "material_basis", "material_unit"} and set(pu) == {"pressure_mode", "pressure_unit"}
+                ctx.ob(okk, Finding("C15.R-pin", fi.where, "psd_dft|kernel-unit-defaults" if not ku else "psd_dft|kernel-units-passed",
+                                    f"psd_dft(kernel_units={ku!r}) reads the isotherm with {lu} / {pu}; required {expect} (documented kernel "
+                                    "representation mmol/g vs relative pressure, overridden only by the entries given)"),
+                       nontrivial_key=("kernel-units", cname))
+        ctx.floor(f"psd_dft returning paths (kernel_units {cname})", nret, 1)
 
 
 META = {
